@@ -3,6 +3,7 @@
 // calls, direct pixel writes and composites; at every composite the same request is also issued on freshly created
 // replicas that receive only the model's *current* property values and the current pixel bytes.
 #include "scene.hpp"
+#include <thread>
 using namespace vf;
 using namespace img;
 using namespace scene;
@@ -84,6 +85,36 @@ static HCase gen_case() {
       h.cmds.push_back(p);
       draw();
     }
+  }
+  if (coin(10)) {
+    // "twins": source and mask of the same format, read at the same position, differing only in what component alpha
+    // means for them (nothing for a source); the mask's setting changes between two otherwise identical requests
+    h.src_gradient = 0;
+    h.sfmt = 0;  // a8r8g8b8
+    h.mfmt = 1;  // a8r8g8b8
+    auto ca = [&](int target, int on) {
+      Cmd p;
+      p.kind = H_COMPONENT_ALPHA;
+      p.target = target;
+      p.a = on;
+      h.cmds.push_back(p);
+    };
+    int opi = (int)R(0, 5);
+    auto draw = [&] {
+      Cmd d;
+      d.kind = H_COMPOSITE;
+      d.a = opi;
+      d.b = 1;
+      d.c = 4;
+      h.cmds.push_back(d);
+    };
+    ca(0, 1);
+    ca(1, 0);
+    draw();
+    ca(1, 1);
+    draw();
+    ca(1, 0);
+    draw();
   }
   Cmd fin;
   fin.kind = H_COMPOSITE;
@@ -294,7 +325,7 @@ static Verdict run_case(const HCase &h) {
     case H_CLIP: {
       int w = is_bits ? m.bits.w : h.w, hh = is_bits ? m.bits.h : h.h;
       m.clip = clip_pool(c.a, w, hh);
-      m.has_clip = !m.clip.empty();
+      m.has_clip = (c.a % 6) != 0;  // pool entry 0 = no clip (NULL), entry 5 = a clip region that is set but empty
       set_clip_real(im, m, c.b & 1);
       note(t, c.kind, c.a);
       break;
@@ -382,6 +413,8 @@ static Verdict run_case(const HCase &h) {
       int op = OPS[c.a % 6];
       bool with_mask = c.b & 1;
       int sx = (c.c % 3) - 1, sy = (c.b % 2), dx = (c.c / 3), dy = 0;
+      // the mask is read either at the source's position or at its origin
+      int mx = (c.c % 2) == 0 ? sx : 0, my = (c.c % 2) == 0 ? sy : 0;
       int w = h.w - dx - (c.b % 3), hh = h.h - (c.a % 2);
       if (w < 1) w = 1;
       if (hh < 1) hh = 1;
@@ -410,8 +443,10 @@ static Verdict run_case(const HCase &h) {
         }
       }
       if (!v.ok) break;
-      pixman_image_composite32((pixman_op_t)op, L[0].b.im, with_mask ? L[1].b.im : nullptr, L[2].b.im, sx, sy, 0, 0, dx, dy, w, hh);
-      pixman_image_composite32((pixman_op_t)op, F[0].im, with_mask ? F[1].im : nullptr, F[2].im, sx, sy, 0, 0, dx, dy, w, hh);
+      pixman_image_composite32((pixman_op_t)op, L[0].b.im, with_mask ? L[1].b.im : nullptr, L[2].b.im, sx, sy, mx, my, dx, dy, w, hh);
+      // the replicas are drawn on a thread of their own: whatever the drawing thread has cached about earlier requests
+      // (the thread-local fast-path cache) is part of the history too, and a new thread starts without it
+      std::thread([&] { pixman_image_composite32((pixman_op_t)op, F[0].im, with_mask ? F[1].im : nullptr, F[2].im, sx, sy, mx, my, dx, dy, w, hh); }).join();
       used[0] = used[2] = true;
       if (with_mask) used[1] = true;
       for (int i = 0; i < 3; i++)
